@@ -28,6 +28,8 @@ CONSTANTS
   NoCode,       \* requested lines without any code            e.g. {9}
   Places,       \* line -> set of addresses (two for the generic line)
   FirstPlace,   \* line -> the address set_breakpoint_at_line returns first (views[0])
+  AltFirst,     \* line -> the other candidate for views[0] (the order of the returned views is an
+                \* implementation detail that changed between two builds of the puppet: both are carried)
   CondLines,    \* lines on which the variable `hot` is in scope
   FnPlaces,     \* function name -> set of addresses ("nosuch" |-> {})
   InsnOk,       \* valid instruction addresses
@@ -44,7 +46,7 @@ CONSTANTS
   MaxReq,
   Alphabet,     \* "small" | "full"
   Cfgs,         \* names of implementation configurations carried along
-  Sw,           \* cfg -> [kindless, all, rfilter, bareident, insnchk : BOOLEAN]
+  Sw,           \* cfg -> [kindless, all, rfilter, bareident, insnchk, altfirst : BOOLEAN]
   Emit,         \* TRUE: print the history of every complete behaviour (generation mode)
   TwoPhase      \* TRUE (simulation only): a step first draws the request class, then the request, so
                 \* that TLC's uniform choice among successors does not drown `continue` in set requests
@@ -57,6 +59,7 @@ N == Len(Exec)
 AllAddrs == {Exec[i] : i \in 1..N}
 
 ASSUME /\ \A l \in Lines : Places[l] \subseteq AllAddrs /\ FirstPlace[l] \in Places[l]
+       /\ \A l \in Lines : AltFirst[l] \in Places[l]
        /\ \A l1, l2 \in Lines : l1 # l2 => Places[l1] \cap Places[l2] = {}
        /\ InsnOk \subseteq AllAddrs /\ InsnBogus \cap AllAddrs = {}
        /\ \A n \in DOMAIN FnPlaces : FnPlaces[n] \subseteq AllAddrs
@@ -165,7 +168,8 @@ ISetSrc(sw, s0, req, id) ==
       s2 == IInstall(s1, k, UNION {places(l) : l \in DOMAIN req})
       mk(l) == [key |-> l, opt |-> req[l], hits |-> 0, id |-> <<id, l>>,
                 addrs |-> IF places(l) = {} THEN {}
-                          ELSE IF sw.all THEN {<<k, a>> : a \in places(l)} ELSE {<<k, FirstPlace[l]>>}]
+                          ELSE IF sw.all THEN {<<k, a>> : a \in places(l)}
+                          ELSE {<<k, IF sw.altfirst THEN AltFirst[l] ELSE FirstPlace[l]>>}]
   IN <<[s2 EXCEPT !.recs["src"] = {mk(l) : l \in DOMAIN req}], {<<l, places(l) # {}>> : l \in DOMAIN req}>>
 
 \* handle_set_function_breakpoints: every returned view is remembered
